@@ -66,7 +66,14 @@ def _s(x, env=None):
     if op in ('path', 'call'): return _envp(x.get('p') or '?', env)
     if op == 'un': return '%s(%s)' % (x.get('o'), _s(x.get('e'), env))
     if op == 'bin':
-        l, r, o = _s(x.get('l'), env), _s(x.get('r'), env), x.get('o')
+        o = x.get('o')
+        if o in ('==', '!='):
+            # x == nullptr / 0 / false is !x ; x != nullptr is x  (also inside && / || operands)
+            for a, b in ((x.get('l'), x.get('r')), (x.get('r'), x.get('l'))):
+                if isinstance(b, dict) and b.get('op') == 'path' and b.get('p') in ('#null', '#0', '#false') and isinstance(a, dict):
+                    inner = _s(a, env)
+                    return inner if o == '!=' else '!(%s)' % inner
+        l, r = _s(x.get('l'), env), _s(x.get('r'), env)
         if o in ('==', '!=', '&&', '||', '&', '|', '+', '*') and r < l: l, r = r, l
         return '(%s %s %s)' % (l, o, r)
     if op == 'cond': return '(%s ? %s : %s)' % (_s(x.get('c'), env), _s(x.get('t'), env), _s(x.get('f'), env))
